@@ -129,6 +129,28 @@ func c16catalogue() []c16item {
 	add("truncated-rpc_result", true, false, func(r *rand.Rand, e *rpcEnv, a pendingReq) []byte { return refserver.RPCResult(a.msgID, a.res)[:8] })
 	add("empty-body", false, false, func(r *rand.Rand, e *rpcEnv, a pendingReq) []byte { return []byte{} })
 	add("three-bytes", false, false, func(r *rand.Rand, e *rpcEnv, a pendingReq) []byte { return le32(0x347773c5)[:0] })
+	// big frames (over 1 MiB, 4 MiB): acknowledgements for 131100 / 600000 ids, a container of 40000 pongs
+	add("msgs_ack-131100-ids", false, true, func(r *rand.Rand, e *rpcEnv, a pendingReq) []byte {
+		ids := make([]int64, 131100)
+		for i := range ids {
+			ids[i] = int64(i) << 2
+		}
+		return refserver.MsgsAck(ids)
+	})
+	add("msgs_ack-600000-ids", false, true, func(r *rand.Rand, e *rpcEnv, a pendingReq) []byte {
+		ids := make([]int64, 600000)
+		for i := range ids {
+			ids[i] = int64(i) << 2
+		}
+		return refserver.MsgsAck(ids)
+	})
+	add("container-of-40000-pongs", false, true, func(r *rand.Rand, e *rpcEnv, a pendingReq) []byte {
+		items := make([]refserver.Out, 40000)
+		for i := range items {
+			items[i] = refserver.Out{MsgID: e.srv.NextMsgID(3), SeqNo: 0, Body: refserver.Pong(int64(i), 2)}
+		}
+		return refserver.Container(items)
+	})
 	add("empty-container", false, false, func(r *rand.Rand, e *rpcEnv, a pendingReq) []byte { return refserver.Container(nil) })
 	add("container-negative-count", false, false, func(r *rand.Rand, e *rpcEnv, a pendingReq) []byte {
 		return append(le32(0x73f1f8dc), le32(0xffffffff)...)
@@ -361,6 +383,18 @@ func c16(c *wk.Ctx) {
 		}
 		idx++
 	}
+	// a server that keeps closing: eight orderly closes in a row, each after the client has reconnected
+	for k := 0; k < c.Pick(1, 4); k++ {
+		if c.Mine(idx) {
+			var seq []c16item
+			for j := 0; j < 8+k; j++ {
+				seq = append(seq, cat[len(cat)-1])
+			}
+			c.Begin(idx, fmt.Sprintf("close x%d", len(seq)))
+			c16case(c, idx, c.Rand(idx), seq, k)
+		}
+		idx++
+	}
 	// random sequences of 1-8 items
 	for k := 0; k < c.Pick(100, 2000); k++ {
 		if c.Mine(idx) {
@@ -447,7 +481,7 @@ func c16case(c *wk.Ctx, idx int, r *rand.Rand, seq []c16item, variant int) {
 	if !probe("before") {
 		return
 	}
-	for _, it := range seq {
+	for si, it := range seq {
 		conns := e.srv.Conns()
 		cn := conns[len(conns)-1]
 		e.mu.Lock()
@@ -497,6 +531,11 @@ func c16case(c *wk.Ctx, idx int, r *rand.Rand, seq []c16item, variant int) {
 						c.Log.Emit(coreInconclusive("c16: reconnect.done hook not seen after close"))
 					}
 					return
+				}
+				// within a run of closes the server says nothing in between: the probe follows the last one
+				if si+1 < len(seq) && seq[si+1].Name == "close" && len(seq) >= 8 {
+					c.Count("reconnects.observed", 1)
+					continue
 				}
 				if !probe("after-close") {
 					return
